@@ -41,40 +41,9 @@ func main() {
 	},
 }
 
-func init() {
-	findings = append(findings, finding{
-		// OpGetVar copies a package-level variable of struct or array type: only an assignment to a direct
-		// field writes the copy back; deeper targets and addresses refer to the copy
-		sig: "global-composite-nested-write", off: "global-nested-write",
-		probe: map[string]string{"main.go": `package main
-
-import "fmt"
-
-type In struct{ X, Y int }
-type T struct {
-	A  int
-	In In
-	Ar [2]int
-}
-
-var g T
-
-func main() {
-	g.In.Y++
-	g.Ar[0] += 5
-	p := &g.A
-	*p = 1
-	fmt.Println(g.A, g.In.Y, g.Ar[0])
-	var l T
-	func() {
-		l.In.Y = 7
-		l.Ar[1]++
-	}()
-	fmt.Println(l.In.Y, l.Ar[1])
-}
-`},
-	})
-}
+// the finding global-composite-nested-write (nested writes below a non-local variable of struct or array type
+// were lost) is repaired: the generator writes and addresses such elements and fields again (its probe is the
+// regression harness/corpus/extra/global-composites.go)
 
 func init() {
 	findings = append(findings, finding{
